@@ -164,8 +164,8 @@ def r10_5(cx):
     cx.check(okf, 'flush', fl, None, 'flush_cache sets self.cache = None', fail_detail='flush_cache does not drop the cache')
 
 
-def r10_6(cx):
-    """streaming: exhausted and zero-count anchors are popped; per-record reset; no useless anchors"""
+def zero_count_loop(cx):
+    """the trailing loop of GlobalDeque::consume pops front anchors until one has count > 0 or none is left"""
     prog = cx.prog
     f = prog.fn(GD + '::consume')
     # second loop: exit only when front is None or count > 0
@@ -200,6 +200,12 @@ def r10_6(cx):
                             good += 1
             ok = good == len(exits) and len(exits) in (1, 2)
     cx.check(ok, 'zero-count-anchors-popped', f, None, 'the trailing loop pops front anchors until one has count > 0 or none is left', fail_detail='zero-count anchors can stay at the front (their chunks are never released)')
+
+
+def r10_6(cx):
+    """streaming: exhausted and zero-count anchors are popped; per-record reset; no useless anchors"""
+    zero_count_loop(cx)
+    prog = cx.prog
     from . import c06, c05
     sub = cx.__class__(cx.prog, cx.profile, cx.prop)
     sub.rule = 'R6.3'
